@@ -1,9 +1,12 @@
 /* sv: basic_string_view<CH> against std::basic_string_view ([string.view.find], [string.view.ops], [string.view.comparison],
- * [char.traits.specializations]) — C08; contract checks — C05; safety rides along — C02.
- * wf(view) = _begin points to an EXACT-SIZE object of _size characters, not terminated (a one-past read is an out-of-bounds
- * failure, natively a heap-buffer-overflow under ASan), including the empty view (a zero-size object).
+ * [char.traits.specializations]) - C08; contract checks - C05; safety rides along - C02.
+ * wf(view) = the viewed range is exactly _size characters of heap storage with NOTHING readable behind it and no terminator: a
+ * one-past read is an out-of-bounds failure (natively a heap-buffer-overflow under ASan), also for the empty view.
+ *   - loop-free groups (kind F) and contract groups (kind U): _begin points to an exact-size object of _size <= 65536 characters;
+ *   - bounded groups (kind B): a window flush with the end (or the begin) of a constant-size object, see SV_BUF.
  * Reference semantics r_* are the standard's "lowest/highest position xpos such that ..." definitions as plain loops over the
- * INPUT arrays (hay_in, nd_in); they never look at the implementation. */
+ * INPUT arrays (hay_in, nd_in); they never look at the implementation.  pos / count arguments are arbitrary size_t (size(),
+ * size()+1, npos included); empty haystack, empty needle and needle longer than the haystack are inside every bounded domain. */
 #if VF_CT == 0
 typedef char CH;
 typedef struct etl_basic_string_view_char SV;
@@ -18,20 +21,11 @@ typedef struct etl_basic_string_view_char16_t SV;
 #define LT(a, b) ((a) < (b))
 #endif
 #define NPOS (~0UL)
-/* bounded groups: haystack length <= HMAX, needle / character-set length <= NMAX.  The SAT effort grows ~5x per extra haystack
- * character (all characters, pos and both lengths are symbolic), so the quick tier stops one short of the thorough tier. */
+/* bounded groups: every group states its own caps (haystack <= HM, needle / character set <= NM); the SAT effort grows ~5x per extra
+ * haystack character (all characters, pos and both lengths are symbolic), so the quick groups stop short of their `_full` twins
+ * (tier=thorough, haystack <= 6, needle <= 3).  HCAP/NCAP bound the reference loops and the input arrays. */
 #define HCAP 6
 #define NCAP 3
-#ifdef VF_TIER_THOROUGH
-#define HMAX 6
-#define HSML 6
-#define NSML 3
-#else
-#define HMAX 5
-#define HSML 4   /* rfind(view): three nested loops (find_end / search / compare) */
-#define NSML 2
-#endif
-#define NMAX 3
 #define BIG 65536UL /* loop-free and contract groups: view length <= BIG */
 
 /* snapshot for C05: a violated precondition must be detected before the view is touched */
@@ -102,20 +96,23 @@ static _Bool w_find_tail(const CH *h, unsigned long hn, const CH *n, unsigned lo
 static _Bool w_cmp_signed(const CH *a, unsigned long an, const CH *b, unsigned long bn) {
   unsigned long m = r_mismatch(a, an, b, bn); return VF_CT == 0 && m < an && m < bn && (a[m] < 0) != (b[m] < 0); }
 
+/* C05 ("the handler stays silent on valid arguments") is listed for the groups whose functions contain a TETL_PRECONDITION on some path
+ * (find -> front()/operator[], compare/starts_with/ends_with -> substr/front/back, copy, substr, remove_*, accessors); rfind and the
+ * find_*_of families only use unsafe_at and cannot reach the handler. */
 /* ---- shared shape of the six search families ---------------------------------------------------------------------------- */
 /* (en, enn, ep) = needle and position by which the standard defines the overload that is called */
-#define HAYSTACK(HM, DEFPOS)                                                                                           \
-    SV_BUF(hay, hn, HM); SV_VIEW(h, hay, hn); VF_INPUT(unsigned long, pos); VF_INPUT_BOOL(dflt);                     \
-    unsigned long ep = dflt ? (DEFPOS) : pos
-/* overloads (view,pos) and (view) */
-#define NEEDLE_V(NM) SV_BUF(nd, nn, NM); SV_VIEW(n, nd, nn); const CH *en = nd_in; unsigned long enn = nn
-#define CALL_V(F) (dflt ? sv_##F##_vd(&h, &n) : sv_##F##_v(&h, &n, pos))
-/* overloads (ptr,pos,count), (C string,pos), (C string) */
-#define NEEDLE_P(NM) SV_BUF(nd, nn, NM); SV_CSTR(cs, nd_in, nn, NM); VF_INPUT_BOOL(counted); __CPROVER_assume(!(counted && dflt));   \
-    const CH *en = nd_in; unsigned long enn = counted ? nn : r_strlen(nd_in, nn)
-#define CALL_P(F) (counted ? sv_##F##_pn(&h, nd, pos, nn) : (dflt ? sv_##F##_pd(&h, cs) : sv_##F##_p(&h, cs, pos)))
-/* overloads (char,pos), (char) */
-#define NEEDLE_C() VF_INPUT_ARR(CH, nd_in, NCAP + 1); CH c = nd_in[0]; const CH *en = nd_in; unsigned long enn = 1
+#define HAYSTACK(HM) SV_BUF(hay, hn, HM); SV_VIEW(h, hay, hn); VF_INPUT(unsigned long, pos)
+/* X: the overload (view,pos) */
+#define NEEDLE_V(NM) SV_BUF(nd, nn, NM); SV_VIEW(n, nd, nn); const CH *en = nd_in; unsigned long enn = nn, ep = pos
+#define CALL_V(F) sv_##F##_v(&h, &n, pos)
+/* X_fwd: the forwarding overloads 0 (view) 1 (ptr,pos,count) 2 (C string,pos) 3 (C string); a group may narrow the choice by
+ * redefining OVSEL before its function */
+#define OVSEL(ov) 1
+#define NEEDLE_FWD(NM, DEFPOS) SV_BUF(nd, nn, NM); SV_VIEW(n, nd, nn); SV_CSTR(cs, nd_in, nn, NM); VF_INPUT(unsigned char, ov); __CPROVER_assume(ov <= 3 && OVSEL(ov)); \
+    const CH *en = nd_in; unsigned long enn = ov >= 2 ? r_strlen(nd_in, nn) : nn, ep = (ov == 0 || ov == 3) ? (DEFPOS) : pos
+#define CALL_FWD(F) (ov == 0 ? sv_##F##_vd(&h, &n) : ov == 1 ? sv_##F##_pn(&h, nd, pos, nn) : ov == 2 ? sv_##F##_p(&h, cs, pos) : sv_##F##_pd(&h, cs))
+/* X_ch: (char,pos), (char) */
+#define NEEDLE_C(DEFPOS) VF_INPUT_ARR(CH, nd_in, NCAP + 1); VF_INPUT_BOOL(dflt); CH c = nd_in[0]; const CH *en = nd_in; unsigned long enn = 1, ep = dflt ? (DEFPOS) : pos
 #define CALL_C(F) (dflt ? sv_##F##_cd(&h, c) : sv_##F##_c(&h, c, pos))
 #define SEARCH_CHECK(r, REF, WHAT)                                                                                     \
     VF_ASSERT(r == REF(hay_in, hn, en, enn, ep), WHAT);                                                                \
@@ -128,74 +125,356 @@ static _Bool w_cmp_signed(const CH *a, unsigned long an, const CH *b, unsigned l
 #define T_FFNO "find_first_not_of: lowest xpos >= pos, xpos < size() with at(xpos) not in the set, else npos"
 #define T_FLNO "find_last_not_of: highest xpos <= pos, xpos < size() with at(xpos) not in the set, else npos"
 
-/*@GROUP name=find props=C08,C02,C05 kind=B solver=kissat unwind=8 bound=haystack<=5(quick)/6(thorough),needle<=3 cost=3@*/
-void h_find(void) { HAYSTACK(HMAX, 0UL); NEEDLE_V(NMAX);
-  VF_KNOWN(C08_find_empty_needle, enn == 0 && ep <= hn);
+/*@GROUP name=find props=C08,C02,C05 kind=B unwind=7 unwindset=r_find.0:8,r_rfind.0:8,r_ffo.0:8,r_ffno.0:8,r_flo.0:8,r_flno.0:8,r_cmp.0:8,r_mismatch.0:8,w_find_tail.0:8,r_match.0:5,r_in.0:5,r_strlen.0:5 bound=haystack<=5,needle<=3 cost=3 when=VF_CT==0@*/
+void h_find(void) { HAYSTACK(5); NEEDLE_V(3);
+  __CPROVER_assume(enn >= 1); /* domain split: the empty needle is group find_empty */
   VF_KNOWN(C08_find_tail_overread, w_find_tail(hay_in, hn, en, enn, ep));
-  unsigned long r = CALL_V(find); SEARCH_CHECK(r, r_find, T_FIND); }
+   unsigned long r = CALL_V(find); SEARCH_CHECK(r, r_find, T_FIND); }
 
-/*@GROUP name=find_ptr props=C08,C02,C05 kind=B solver=kissat unwind=8 bound=haystack<=5(quick)/6(thorough),needle<=3 cost=3@*/
-void h_find_ptr(void) { HAYSTACK(HMAX, 0UL); NEEDLE_P(NMAX);
-  VF_KNOWN(C08_find_empty_needle, enn == 0 && ep <= hn);
+/*@GROUP name=find_fwd props=C08,C02,C05 kind=B unwind=5 unwindset=r_find.0:8,r_rfind.0:8,r_ffo.0:8,r_ffno.0:8,r_flo.0:8,r_flno.0:8,r_cmp.0:8,r_mismatch.0:8,w_find_tail.0:8,r_match.0:5,r_in.0:5,r_strlen.0:5 bound=haystack<=3,needle<=2 cost=3 when=VF_CT==0@*/
+void h_find_fwd(void) { HAYSTACK(3); NEEDLE_FWD(2, 0UL);
+  __CPROVER_assume(enn >= 1); /* domain split: the empty needle is group find_empty */
   VF_KNOWN(C08_find_tail_overread, w_find_tail(hay_in, hn, en, enn, ep));
-  unsigned long r = CALL_P(find); SEARCH_CHECK(r, r_find, T_FIND); }
+   unsigned long r = CALL_FWD(find); SEARCH_CHECK(r, r_find, T_FIND); }
 
-/*@GROUP name=find_ch props=C08,C02,C05 kind=B solver=kissat unwind=8 bound=haystack<=5(quick)/6(thorough)@*/
-void h_find_ch(void) { HAYSTACK(HMAX, 0UL); NEEDLE_C(); unsigned long r = CALL_C(find); SEARCH_CHECK(r, r_find, T_FIND); }
+/*@GROUP name=find_ch props=C08,C02,C05 kind=B unwind=7 unwindset=r_find.0:8,r_rfind.0:8,r_ffo.0:8,r_ffno.0:8,r_flo.0:8,r_flno.0:8,r_cmp.0:8,r_mismatch.0:8,w_find_tail.0:8,r_match.0:5,r_in.0:5,r_strlen.0:5 bound=haystack<=5 cost=1@*/
+void h_find_ch(void) { HAYSTACK(5); NEEDLE_C(0UL);  unsigned long r = CALL_C(find); SEARCH_CHECK(r, r_find, T_FIND); }
 
-/*@GROUP name=rfind props=C08,C02,C05 kind=B solver=kissat unwind=8 bound=haystack<=4(quick)/6(thorough),needle<=2(quick)/3(thorough) cost=3@*/
-void h_rfind(void) { HAYSTACK(HSML, NPOS); NEEDLE_V(NSML); unsigned long r = CALL_V(rfind); SEARCH_CHECK(r, r_rfind, T_RFIND); }
+/*@GROUP name=rfind props=C08,C02 kind=B unwind=6 unwindset=r_find.0:8,r_rfind.0:8,r_ffo.0:8,r_ffno.0:8,r_flo.0:8,r_flno.0:8,r_cmp.0:8,r_mismatch.0:8,w_find_tail.0:8,r_match.0:5,r_in.0:5,r_strlen.0:5 bound=haystack<=4,needle<=2 cost=3 when=VF_CT==0@*/
+void h_rfind(void) { HAYSTACK(4); NEEDLE_V(2); unsigned long r = CALL_V(rfind); SEARCH_CHECK(r, r_rfind, T_RFIND); }
 
-/*@GROUP name=rfind_ptr props=C08,C02,C05 kind=B solver=kissat unwind=8 bound=haystack<=4(quick)/6(thorough),needle<=2(quick)/3(thorough) cost=3@*/
-void h_rfind_ptr(void) { HAYSTACK(HSML, NPOS); NEEDLE_P(NSML); unsigned long r = CALL_P(rfind); SEARCH_CHECK(r, r_rfind, T_RFIND); }
+/*@GROUP name=rfind_fwd props=C08,C02 kind=B unwind=5 unwindset=r_find.0:8,r_rfind.0:8,r_ffo.0:8,r_ffno.0:8,r_flo.0:8,r_flno.0:8,r_cmp.0:8,r_mismatch.0:8,w_find_tail.0:8,r_match.0:5,r_in.0:5,r_strlen.0:5 bound=haystack<=3,needle<=2 cost=3 when=VF_CT==0@*/
+#undef OVSEL
+#define OVSEL(ov) ((ov) <= 1)
+void h_rfind_fwd(void) { HAYSTACK(3); NEEDLE_FWD(2, NPOS); unsigned long r = CALL_FWD(rfind); SEARCH_CHECK(r, r_rfind, T_RFIND); }
 
-/*@GROUP name=rfind_ch props=C08,C02,C05 kind=B solver=kissat unwind=8 bound=haystack<=5(quick)/6(thorough)@*/
-void h_rfind_ch(void) { HAYSTACK(HMAX, NPOS); NEEDLE_C(); unsigned long r = CALL_C(rfind); SEARCH_CHECK(r, r_rfind, T_RFIND); }
+/*@GROUP name=rfind_cstr props=C08,C02 kind=B unwind=5 unwindset=r_find.0:8,r_rfind.0:8,r_ffo.0:8,r_ffno.0:8,r_flo.0:8,r_flno.0:8,r_cmp.0:8,r_mismatch.0:8,w_find_tail.0:8,r_match.0:5,r_in.0:5,r_strlen.0:5 bound=haystack<=3,needle<=2 cost=3 when=VF_CT==0@*/
+#undef OVSEL
+#define OVSEL(ov) ((ov) >= 2)
+void h_rfind_cstr(void) { HAYSTACK(3); NEEDLE_FWD(2, NPOS); unsigned long r = CALL_FWD(rfind); SEARCH_CHECK(r, r_rfind, T_RFIND); }
 
-/*@GROUP name=first_of props=C08,C02,C05 kind=B solver=kissat unwind=8 bound=haystack<=5(quick)/6(thorough),set<=3 cost=2@*/
-void h_first_of(void) { HAYSTACK(HMAX, 0UL); NEEDLE_V(NMAX); unsigned long r = CALL_V(find_first_of); SEARCH_CHECK(r, r_ffo, T_FFO); }
+/*@GROUP name=rfind_ch props=C08,C02 kind=B unwind=7 unwindset=r_find.0:8,r_rfind.0:8,r_ffo.0:8,r_ffno.0:8,r_flo.0:8,r_flno.0:8,r_cmp.0:8,r_mismatch.0:8,w_find_tail.0:8,r_match.0:5,r_in.0:5,r_strlen.0:5 bound=haystack<=5 cost=1@*/
+void h_rfind_ch(void) { HAYSTACK(5); NEEDLE_C(NPOS); unsigned long r = CALL_C(rfind); SEARCH_CHECK(r, r_rfind, T_RFIND); }
 
-/*@GROUP name=first_of_ptr props=C08,C02,C05 kind=B solver=kissat unwind=8 bound=haystack<=5(quick)/6(thorough),set<=3 cost=2@*/
-void h_first_of_ptr(void) { HAYSTACK(HMAX, 0UL); NEEDLE_P(NMAX); unsigned long r = CALL_P(find_first_of); SEARCH_CHECK(r, r_ffo, T_FFO); }
+/*@GROUP name=first_of props=C08,C02 kind=B unwind=7 unwindset=r_find.0:8,r_rfind.0:8,r_ffo.0:8,r_ffno.0:8,r_flo.0:8,r_flno.0:8,r_cmp.0:8,r_mismatch.0:8,w_find_tail.0:8,r_match.0:5,r_in.0:5,r_strlen.0:5 bound=haystack<=5,needle<=3 cost=3 when=VF_CT==0@*/
+void h_first_of(void) { HAYSTACK(5); NEEDLE_V(3); unsigned long r = CALL_V(find_first_of); SEARCH_CHECK(r, r_ffo, T_FFO); }
 
-/*@GROUP name=first_of_ch props=C08,C02,C05 kind=B solver=kissat unwind=8 bound=haystack<=5(quick)/6(thorough)@*/
-void h_first_of_ch(void) { HAYSTACK(HMAX, 0UL); NEEDLE_C(); unsigned long r = CALL_C(find_first_of); SEARCH_CHECK(r, r_ffo, T_FFO); }
+/*@GROUP name=first_of_fwd props=C08,C02 kind=B unwind=5 unwindset=r_find.0:8,r_rfind.0:8,r_ffo.0:8,r_ffno.0:8,r_flo.0:8,r_flno.0:8,r_cmp.0:8,r_mismatch.0:8,w_find_tail.0:8,r_match.0:5,r_in.0:5,r_strlen.0:5 bound=haystack<=3,needle<=2 cost=3 when=VF_CT==0@*/
+void h_first_of_fwd(void) { HAYSTACK(3); NEEDLE_FWD(2, 0UL); unsigned long r = CALL_FWD(find_first_of); SEARCH_CHECK(r, r_ffo, T_FFO); }
 
-/*@GROUP name=last_of props=C08,C02,C05 kind=B solver=kissat unwind=8 bound=haystack<=5(quick)/6(thorough),set<=3 cost=2@*/
-void h_last_of(void) { HAYSTACK(HMAX, NPOS); NEEDLE_V(NMAX);
+/*@GROUP name=first_of_ch props=C08,C02 kind=B unwind=7 unwindset=r_find.0:8,r_rfind.0:8,r_ffo.0:8,r_ffno.0:8,r_flo.0:8,r_flno.0:8,r_cmp.0:8,r_mismatch.0:8,w_find_tail.0:8,r_match.0:5,r_in.0:5,r_strlen.0:5 bound=haystack<=5 cost=1 when=VF_CT==0@*/
+void h_first_of_ch(void) { HAYSTACK(5); NEEDLE_C(0UL); unsigned long r = CALL_C(find_first_of); SEARCH_CHECK(r, r_ffo, T_FFO); }
+
+/*@GROUP name=last_of props=C08,C02 kind=B unwind=7 unwindset=r_find.0:8,r_rfind.0:8,r_ffo.0:8,r_ffno.0:8,r_flo.0:8,r_flno.0:8,r_cmp.0:8,r_mismatch.0:8,w_find_tail.0:8,r_match.0:5,r_in.0:5,r_strlen.0:5 bound=haystack<=5,needle<=3 cost=3 when=VF_CT==0@*/
+void h_last_of(void) { HAYSTACK(5); NEEDLE_V(3);
+  __CPROVER_assume(hn >= 1); /* domain split: the empty view is in groups last_of_empty / last_not_of_empty */
+   unsigned long r = CALL_V(find_last_of); SEARCH_CHECK(r, r_flo, T_FLO); }
+
+/*@GROUP name=last_of_fwd props=C08,C02 kind=B unwind=5 unwindset=r_find.0:8,r_rfind.0:8,r_ffo.0:8,r_ffno.0:8,r_flo.0:8,r_flno.0:8,r_cmp.0:8,r_mismatch.0:8,w_find_tail.0:8,r_match.0:5,r_in.0:5,r_strlen.0:5 bound=haystack<=3,needle<=2 cost=3 when=VF_CT==0@*/
+void h_last_of_fwd(void) { HAYSTACK(3); NEEDLE_FWD(2, NPOS);
+  __CPROVER_assume(hn >= 1); /* domain split: the empty view is in groups last_of_empty / last_not_of_empty */
+   unsigned long r = CALL_FWD(find_last_of); SEARCH_CHECK(r, r_flo, T_FLO); }
+
+/*@GROUP name=last_of_ch props=C08,C02 kind=B unwind=7 unwindset=r_find.0:8,r_rfind.0:8,r_ffo.0:8,r_ffno.0:8,r_flo.0:8,r_flno.0:8,r_cmp.0:8,r_mismatch.0:8,w_find_tail.0:8,r_match.0:5,r_in.0:5,r_strlen.0:5 bound=haystack<=5 cost=1@*/
+void h_last_of_ch(void) { HAYSTACK(5); NEEDLE_C(NPOS);
+  __CPROVER_assume(hn >= 1); /* domain split: the empty view is in groups last_of_empty / last_not_of_empty */
+   unsigned long r = CALL_C(find_last_of); SEARCH_CHECK(r, r_flo, T_FLO); }
+
+/*@GROUP name=first_not_of props=C08,C02 kind=B unwind=7 unwindset=r_find.0:8,r_rfind.0:8,r_ffo.0:8,r_ffno.0:8,r_flo.0:8,r_flno.0:8,r_cmp.0:8,r_mismatch.0:8,w_find_tail.0:8,r_match.0:5,r_in.0:5,r_strlen.0:5 bound=haystack<=5,needle<=3 cost=3 when=VF_CT==0@*/
+void h_first_not_of(void) { HAYSTACK(5); NEEDLE_V(3); unsigned long r = CALL_V(find_first_not_of); SEARCH_CHECK(r, r_ffno, T_FFNO); }
+
+/*@GROUP name=first_not_of_fwd props=C08,C02 kind=B unwind=5 unwindset=r_find.0:8,r_rfind.0:8,r_ffo.0:8,r_ffno.0:8,r_flo.0:8,r_flno.0:8,r_cmp.0:8,r_mismatch.0:8,w_find_tail.0:8,r_match.0:5,r_in.0:5,r_strlen.0:5 bound=haystack<=3,needle<=2 cost=3 when=VF_CT==0@*/
+void h_first_not_of_fwd(void) { HAYSTACK(3); NEEDLE_FWD(2, 0UL); unsigned long r = CALL_FWD(find_first_not_of); SEARCH_CHECK(r, r_ffno, T_FFNO); }
+
+/*@GROUP name=first_not_of_ch props=C08,C02 kind=B unwind=7 unwindset=r_find.0:8,r_rfind.0:8,r_ffo.0:8,r_ffno.0:8,r_flo.0:8,r_flno.0:8,r_cmp.0:8,r_mismatch.0:8,w_find_tail.0:8,r_match.0:5,r_in.0:5,r_strlen.0:5 bound=haystack<=5 cost=1@*/
+void h_first_not_of_ch(void) { HAYSTACK(5); NEEDLE_C(0UL); unsigned long r = CALL_C(find_first_not_of); SEARCH_CHECK(r, r_ffno, T_FFNO); }
+
+/*@GROUP name=last_not_of props=C08,C02 kind=B unwind=7 unwindset=r_find.0:8,r_rfind.0:8,r_ffo.0:8,r_ffno.0:8,r_flo.0:8,r_flno.0:8,r_cmp.0:8,r_mismatch.0:8,w_find_tail.0:8,r_match.0:5,r_in.0:5,r_strlen.0:5 bound=haystack<=5,needle<=3 cost=3 solver=kissat when=VF_CT==0@*/
+void h_last_not_of(void) { HAYSTACK(5); NEEDLE_V(3);
+  __CPROVER_assume(hn >= 1); /* domain split: the empty view is in groups last_of_empty / last_not_of_empty */
+   unsigned long r = CALL_V(find_last_not_of); SEARCH_CHECK(r, r_flno, T_FLNO); }
+
+/*@GROUP name=last_not_of_fwd props=C08,C02 kind=B unwind=5 unwindset=r_find.0:8,r_rfind.0:8,r_ffo.0:8,r_ffno.0:8,r_flo.0:8,r_flno.0:8,r_cmp.0:8,r_mismatch.0:8,w_find_tail.0:8,r_match.0:5,r_in.0:5,r_strlen.0:5 bound=haystack<=3,needle<=2 cost=3 when=VF_CT==0@*/
+void h_last_not_of_fwd(void) { HAYSTACK(3); NEEDLE_FWD(2, NPOS);
+  __CPROVER_assume(hn >= 1); /* domain split: the empty view is in groups last_of_empty / last_not_of_empty */
+   unsigned long r = CALL_FWD(find_last_not_of); SEARCH_CHECK(r, r_flno, T_FLNO); }
+
+/*@GROUP name=last_not_of_ch props=C08,C02 kind=B unwind=7 unwindset=r_find.0:8,r_rfind.0:8,r_ffo.0:8,r_ffno.0:8,r_flo.0:8,r_flno.0:8,r_cmp.0:8,r_mismatch.0:8,w_find_tail.0:8,r_match.0:5,r_in.0:5,r_strlen.0:5 bound=haystack<=5 cost=1 when=VF_CT==0@*/
+void h_last_not_of_ch(void) { HAYSTACK(5); NEEDLE_C(NPOS);
+  __CPROVER_assume(hn >= 1); /* domain split: the empty view is in groups last_of_empty / last_not_of_empty */
+   unsigned long r = CALL_C(find_last_not_of); SEARCH_CHECK(r, r_flno, T_FLNO); }
+
+/*@GROUP name=find_full props=C08,C02,C05 kind=B unwind=8 unwindset=r_find.0:8,r_rfind.0:8,r_ffo.0:8,r_ffno.0:8,r_flo.0:8,r_flno.0:8,r_cmp.0:8,r_mismatch.0:8,w_find_tail.0:8,r_match.0:5,r_in.0:5,r_strlen.0:5 bound=haystack<=6,needle<=3 cost=3 tier=thorough timeout=1500 when=VF_CT==0@*/
+void h_find_full(void) { HAYSTACK(6); NEEDLE_V(3);
+  __CPROVER_assume(enn >= 1); /* domain split: the empty needle is group find_empty */
+  VF_KNOWN(C08_find_tail_overread, w_find_tail(hay_in, hn, en, enn, ep));
+   unsigned long r = CALL_V(find); SEARCH_CHECK(r, r_find, T_FIND); }
+
+/*@GROUP name=find_fwd_full props=C08,C02,C05 kind=B unwind=8 unwindset=r_find.0:8,r_rfind.0:8,r_ffo.0:8,r_ffno.0:8,r_flo.0:8,r_flno.0:8,r_cmp.0:8,r_mismatch.0:8,w_find_tail.0:8,r_match.0:5,r_in.0:5,r_strlen.0:5 bound=haystack<=6,needle<=3 cost=3 tier=thorough timeout=1500 when=VF_CT==0@*/
+void h_find_fwd_full(void) { HAYSTACK(6); NEEDLE_FWD(3, 0UL);
+  __CPROVER_assume(enn >= 1); /* domain split: the empty needle is group find_empty */
+  VF_KNOWN(C08_find_tail_overread, w_find_tail(hay_in, hn, en, enn, ep));
+   unsigned long r = CALL_FWD(find); SEARCH_CHECK(r, r_find, T_FIND); }
+
+/*@GROUP name=find_ch_full props=C08,C02,C05 kind=B unwind=8 unwindset=r_find.0:8,r_rfind.0:8,r_ffo.0:8,r_ffno.0:8,r_flo.0:8,r_flno.0:8,r_cmp.0:8,r_mismatch.0:8,w_find_tail.0:8,r_match.0:5,r_in.0:5,r_strlen.0:5 bound=haystack<=6 cost=1 tier=thorough timeout=1500 when=VF_CT==0@*/
+void h_find_ch_full(void) { HAYSTACK(6); NEEDLE_C(0UL);  unsigned long r = CALL_C(find); SEARCH_CHECK(r, r_find, T_FIND); }
+
+/*@GROUP name=rfind_full props=C08,C02 kind=B unwind=8 unwindset=r_find.0:8,r_rfind.0:8,r_ffo.0:8,r_ffno.0:8,r_flo.0:8,r_flno.0:8,r_cmp.0:8,r_mismatch.0:8,w_find_tail.0:8,r_match.0:5,r_in.0:5,r_strlen.0:5 bound=haystack<=6,needle<=3 cost=3 tier=thorough timeout=1500 when=VF_CT==0@*/
+void h_rfind_full(void) { HAYSTACK(6); NEEDLE_V(3); unsigned long r = CALL_V(rfind); SEARCH_CHECK(r, r_rfind, T_RFIND); }
+
+/*@GROUP name=rfind_fwd_full props=C08,C02 kind=B unwind=8 unwindset=r_find.0:8,r_rfind.0:8,r_ffo.0:8,r_ffno.0:8,r_flo.0:8,r_flno.0:8,r_cmp.0:8,r_mismatch.0:8,w_find_tail.0:8,r_match.0:5,r_in.0:5,r_strlen.0:5 bound=haystack<=6,needle<=3 cost=3 tier=thorough timeout=1500 when=VF_CT==0@*/
+void h_rfind_fwd_full(void) { HAYSTACK(6); NEEDLE_FWD(3, NPOS); unsigned long r = CALL_FWD(rfind); SEARCH_CHECK(r, r_rfind, T_RFIND); }
+
+/*@GROUP name=rfind_ch_full props=C08,C02 kind=B unwind=8 unwindset=r_find.0:8,r_rfind.0:8,r_ffo.0:8,r_ffno.0:8,r_flo.0:8,r_flno.0:8,r_cmp.0:8,r_mismatch.0:8,w_find_tail.0:8,r_match.0:5,r_in.0:5,r_strlen.0:5 bound=haystack<=6 cost=1 tier=thorough timeout=1500 when=VF_CT==0@*/
+void h_rfind_ch_full(void) { HAYSTACK(6); NEEDLE_C(NPOS); unsigned long r = CALL_C(rfind); SEARCH_CHECK(r, r_rfind, T_RFIND); }
+
+/*@GROUP name=first_of_full props=C08,C02 kind=B unwind=8 unwindset=r_find.0:8,r_rfind.0:8,r_ffo.0:8,r_ffno.0:8,r_flo.0:8,r_flno.0:8,r_cmp.0:8,r_mismatch.0:8,w_find_tail.0:8,r_match.0:5,r_in.0:5,r_strlen.0:5 bound=haystack<=6,needle<=3 cost=3 tier=thorough timeout=1500 when=VF_CT==0@*/
+void h_first_of_full(void) { HAYSTACK(6); NEEDLE_V(3); unsigned long r = CALL_V(find_first_of); SEARCH_CHECK(r, r_ffo, T_FFO); }
+
+/*@GROUP name=first_of_fwd_full props=C08,C02 kind=B unwind=8 unwindset=r_find.0:8,r_rfind.0:8,r_ffo.0:8,r_ffno.0:8,r_flo.0:8,r_flno.0:8,r_cmp.0:8,r_mismatch.0:8,w_find_tail.0:8,r_match.0:5,r_in.0:5,r_strlen.0:5 bound=haystack<=6,needle<=3 cost=3 tier=thorough timeout=1500 when=VF_CT==0@*/
+void h_first_of_fwd_full(void) { HAYSTACK(6); NEEDLE_FWD(3, 0UL); unsigned long r = CALL_FWD(find_first_of); SEARCH_CHECK(r, r_ffo, T_FFO); }
+
+/*@GROUP name=first_of_ch_full props=C08,C02 kind=B unwind=8 unwindset=r_find.0:8,r_rfind.0:8,r_ffo.0:8,r_ffno.0:8,r_flo.0:8,r_flno.0:8,r_cmp.0:8,r_mismatch.0:8,w_find_tail.0:8,r_match.0:5,r_in.0:5,r_strlen.0:5 bound=haystack<=6 cost=1 tier=thorough timeout=1500 when=VF_CT==0@*/
+void h_first_of_ch_full(void) { HAYSTACK(6); NEEDLE_C(0UL); unsigned long r = CALL_C(find_first_of); SEARCH_CHECK(r, r_ffo, T_FFO); }
+
+/*@GROUP name=last_of_full props=C08,C02 kind=B unwind=8 unwindset=r_find.0:8,r_rfind.0:8,r_ffo.0:8,r_ffno.0:8,r_flo.0:8,r_flno.0:8,r_cmp.0:8,r_mismatch.0:8,w_find_tail.0:8,r_match.0:5,r_in.0:5,r_strlen.0:5 bound=haystack<=6,needle<=3 cost=3 tier=thorough timeout=1500 when=VF_CT==0@*/
+void h_last_of_full(void) { HAYSTACK(6); NEEDLE_V(3);
+  __CPROVER_assume(hn >= 1); /* domain split: the empty view is in groups last_of_empty / last_not_of_empty */
+   unsigned long r = CALL_V(find_last_of); SEARCH_CHECK(r, r_flo, T_FLO); }
+
+/*@GROUP name=last_of_fwd_full props=C08,C02 kind=B unwind=8 unwindset=r_find.0:8,r_rfind.0:8,r_ffo.0:8,r_ffno.0:8,r_flo.0:8,r_flno.0:8,r_cmp.0:8,r_mismatch.0:8,w_find_tail.0:8,r_match.0:5,r_in.0:5,r_strlen.0:5 bound=haystack<=6,needle<=3 cost=3 tier=thorough timeout=1500 when=VF_CT==0@*/
+void h_last_of_fwd_full(void) { HAYSTACK(6); NEEDLE_FWD(3, NPOS);
+  __CPROVER_assume(hn >= 1); /* domain split: the empty view is in groups last_of_empty / last_not_of_empty */
+   unsigned long r = CALL_FWD(find_last_of); SEARCH_CHECK(r, r_flo, T_FLO); }
+
+/*@GROUP name=last_of_ch_full props=C08,C02 kind=B unwind=8 unwindset=r_find.0:8,r_rfind.0:8,r_ffo.0:8,r_ffno.0:8,r_flo.0:8,r_flno.0:8,r_cmp.0:8,r_mismatch.0:8,w_find_tail.0:8,r_match.0:5,r_in.0:5,r_strlen.0:5 bound=haystack<=6 cost=1 tier=thorough timeout=1500 when=VF_CT==0@*/
+void h_last_of_ch_full(void) { HAYSTACK(6); NEEDLE_C(NPOS);
+  __CPROVER_assume(hn >= 1); /* domain split: the empty view is in groups last_of_empty / last_not_of_empty */
+   unsigned long r = CALL_C(find_last_of); SEARCH_CHECK(r, r_flo, T_FLO); }
+
+/*@GROUP name=first_not_of_full props=C08,C02 kind=B unwind=8 unwindset=r_find.0:8,r_rfind.0:8,r_ffo.0:8,r_ffno.0:8,r_flo.0:8,r_flno.0:8,r_cmp.0:8,r_mismatch.0:8,w_find_tail.0:8,r_match.0:5,r_in.0:5,r_strlen.0:5 bound=haystack<=6,needle<=3 cost=3 tier=thorough timeout=1500 when=VF_CT==0@*/
+void h_first_not_of_full(void) { HAYSTACK(6); NEEDLE_V(3); unsigned long r = CALL_V(find_first_not_of); SEARCH_CHECK(r, r_ffno, T_FFNO); }
+
+/*@GROUP name=first_not_of_fwd_full props=C08,C02 kind=B unwind=8 unwindset=r_find.0:8,r_rfind.0:8,r_ffo.0:8,r_ffno.0:8,r_flo.0:8,r_flno.0:8,r_cmp.0:8,r_mismatch.0:8,w_find_tail.0:8,r_match.0:5,r_in.0:5,r_strlen.0:5 bound=haystack<=6,needle<=3 cost=3 tier=thorough timeout=1500 when=VF_CT==0@*/
+void h_first_not_of_fwd_full(void) { HAYSTACK(6); NEEDLE_FWD(3, 0UL); unsigned long r = CALL_FWD(find_first_not_of); SEARCH_CHECK(r, r_ffno, T_FFNO); }
+
+/*@GROUP name=first_not_of_ch_full props=C08,C02 kind=B unwind=8 unwindset=r_find.0:8,r_rfind.0:8,r_ffo.0:8,r_ffno.0:8,r_flo.0:8,r_flno.0:8,r_cmp.0:8,r_mismatch.0:8,w_find_tail.0:8,r_match.0:5,r_in.0:5,r_strlen.0:5 bound=haystack<=6 cost=1 tier=thorough timeout=1500 when=VF_CT==0@*/
+void h_first_not_of_ch_full(void) { HAYSTACK(6); NEEDLE_C(0UL); unsigned long r = CALL_C(find_first_not_of); SEARCH_CHECK(r, r_ffno, T_FFNO); }
+
+/*@GROUP name=last_not_of_full props=C08,C02 kind=B unwind=8 unwindset=r_find.0:8,r_rfind.0:8,r_ffo.0:8,r_ffno.0:8,r_flo.0:8,r_flno.0:8,r_cmp.0:8,r_mismatch.0:8,w_find_tail.0:8,r_match.0:5,r_in.0:5,r_strlen.0:5 bound=haystack<=6,needle<=3 cost=3 tier=thorough timeout=1500 when=VF_CT==0@*/
+void h_last_not_of_full(void) { HAYSTACK(6); NEEDLE_V(3);
+  __CPROVER_assume(hn >= 1); /* domain split: the empty view is in groups last_of_empty / last_not_of_empty */
+   unsigned long r = CALL_V(find_last_not_of); SEARCH_CHECK(r, r_flno, T_FLNO); }
+
+/*@GROUP name=last_not_of_fwd_full props=C08,C02 kind=B unwind=8 unwindset=r_find.0:8,r_rfind.0:8,r_ffo.0:8,r_ffno.0:8,r_flo.0:8,r_flno.0:8,r_cmp.0:8,r_mismatch.0:8,w_find_tail.0:8,r_match.0:5,r_in.0:5,r_strlen.0:5 bound=haystack<=6,needle<=3 cost=3 tier=thorough timeout=1500 when=VF_CT==0@*/
+void h_last_not_of_fwd_full(void) { HAYSTACK(6); NEEDLE_FWD(3, NPOS);
+  __CPROVER_assume(hn >= 1); /* domain split: the empty view is in groups last_of_empty / last_not_of_empty */
+   unsigned long r = CALL_FWD(find_last_not_of); SEARCH_CHECK(r, r_flno, T_FLNO); }
+
+/*@GROUP name=last_not_of_ch_full props=C08,C02 kind=B unwind=8 unwindset=r_find.0:8,r_rfind.0:8,r_ffo.0:8,r_ffno.0:8,r_flo.0:8,r_flno.0:8,r_cmp.0:8,r_mismatch.0:8,w_find_tail.0:8,r_match.0:5,r_in.0:5,r_strlen.0:5 bound=haystack<=6 cost=1 tier=thorough timeout=1500 when=VF_CT==0@*/
+void h_last_not_of_ch_full(void) { HAYSTACK(6); NEEDLE_C(NPOS);
+  __CPROVER_assume(hn >= 1); /* domain split: the empty view is in groups last_of_empty / last_not_of_empty */
+   unsigned long r = CALL_C(find_last_not_of); SEARCH_CHECK(r, r_flno, T_FLNO); }
+
+/* the empty needle: find returns pos for every pos <= size() (an empty string is found everywhere), npos beyond */
+/*@GROUP name=find_empty props=C08,C02,C05 kind=B unwind=8 bound=haystack<=6,needle=0 cost=1 when=VF_CT==0@*/
+void h_find_empty(void) { HAYSTACK(HCAP); VF_INPUT(unsigned char, ov); __CPROVER_assume(ov <= 4);
+  VF_INPUT_BOOL(nd_tail); CH *nd_obj = (CH *)malloc(NCAP * sizeof(CH)); CH *nd = nd_obj + (nd_tail ? NCAP : 0); SV_VIEW(n, nd, 0); /* empty window */
+  CH *cs = (CH *)malloc(sizeof(CH)); cs[0] = 0; /* "" */
+  unsigned long ep = (ov == 1 || ov == 4) ? 0UL : pos;
+  VF_KNOWN(C08_find_empty_needle, ep <= hn);
+  unsigned long r = ov == 0 ? sv_find_v(&h, &n, pos) : ov == 1 ? sv_find_vd(&h, &n) : ov == 2 ? sv_find_pn(&h, nd, pos, 0) : ov == 3 ? sv_find_p(&h, cs, pos) : sv_find_pd(&h, cs);
+  VF_ASSERT(r == (ep <= hn ? ep : NPOS), "find with an empty needle: pos if pos <= size(), else npos"); VF_REACH(); }
+
+/*@COMMON@*/
+/* the empty view (and, so that the group is not vacuous once the finding is excluded, the one-character view), all 7 + 7 overloads */
+#define LAST_EMPTY(F, REF)                                                                                              \
+    if (fn == 1) { ep = pos; enn = nn; } else if (fn == 2) { enn = 1; ep = dflt ? NPOS : pos; }                         \
+    unsigned long r = fn == 0 ? CALL_FWD(F) : fn == 1 ? CALL_V(F) : CALL_C(F);                                          \
+    VF_ASSERT(r == REF(hay_in, hn, en, enn, ep), #F " on an empty or one-character view (npos on the empty view)"); VF_REACH()
+/*@GROUP name=last_of_empty props=C08,C02 kind=B unwind=4 unwindset=r_flo.0:8,r_flno.0:8,r_in.0:5,r_strlen.0:5 bound=haystack<=1,set<=2 cost=2 when=VF_CT==0@*/
+void h_last_of_empty(void) { HAYSTACK(1); NEEDLE_FWD(2, NPOS); VF_INPUT(unsigned char, fn); __CPROVER_assume(fn <= 2); CH c = nd_in[0]; VF_INPUT_BOOL(dflt);
   VF_KNOWN(C08_find_last_empty_view, hn == 0);
-  unsigned long r = CALL_V(find_last_of); SEARCH_CHECK(r, r_flo, T_FLO); }
+  LAST_EMPTY(find_last_of, r_flo); }
 
-/*@GROUP name=last_of_ptr props=C08,C02,C05 kind=B solver=kissat unwind=8 bound=haystack<=5(quick)/6(thorough),set<=3 cost=2@*/
-void h_last_of_ptr(void) { HAYSTACK(HMAX, NPOS); NEEDLE_P(NMAX);
+/*@GROUP name=last_not_of_empty props=C08,C02 kind=B unwind=4 unwindset=r_flo.0:8,r_flno.0:8,r_in.0:5,r_strlen.0:5 bound=haystack<=1,set<=2 cost=2 when=VF_CT==0@*/
+void h_last_not_of_empty(void) { HAYSTACK(1); NEEDLE_FWD(2, NPOS); VF_INPUT(unsigned char, fn); __CPROVER_assume(fn <= 2); CH c = nd_in[0]; VF_INPUT_BOOL(dflt);
   VF_KNOWN(C08_find_last_empty_view, hn == 0);
-  unsigned long r = CALL_P(find_last_of); SEARCH_CHECK(r, r_flo, T_FLO); }
+  LAST_EMPTY(find_last_not_of, r_flno); }
 
-/*@GROUP name=last_of_ch props=C08,C02,C05 kind=B solver=kissat unwind=8 bound=haystack<=5(quick)/6(thorough)@*/
-void h_last_of_ch(void) { HAYSTACK(HMAX, NPOS); NEEDLE_C();
-  VF_KNOWN(C08_find_last_empty_view, hn == 0);
-  unsigned long r = CALL_C(find_last_of); SEARCH_CHECK(r, r_flo, T_FLO); }
+/*@COMMON@*/
+/* ---- compare, starts_with / ends_with / contains, relational operators ------------------------------------------------------ */
+/* compare: 0 (v) 1 (pos1,count1,v) 2 (pos1,count1,v,pos2,count2) 3 (s) 4 (pos1,count1,s) 5 (pos1,count1,s,count2); only the sign
+ * is specified. pos1/count1/pos2/count2 are arbitrary size_t with pos1 <= size(), pos2 <= v.size() (beyond: C05 group viol_pos) */
+#define COMPARE_BODY(HM, NM)                                                                                           \
+    SV_BUF(hay, hn, HM); SV_VIEW(h, hay, hn); SV_BUF(nd, nn, NM); SV_VIEW(n, nd, nn); SV_CSTR(cs, nd_in, nn, NM);      \
+    VF_INPUT(unsigned char, ov); VF_INPUT(unsigned long, p1); VF_INPUT(unsigned long, c1); VF_INPUT(unsigned long, p2); VF_INPUT(unsigned long, c2); \
+    __CPROVER_assume(ov <= 5 && p1 <= hn && p2 <= nn);                                                                  \
+    const CH *ea = hay_in + (ov == 0 || ov == 3 ? 0 : p1); unsigned long ean = ov == 0 || ov == 3 ? hn : r_min(c1, hn - p1);          \
+    const CH *eb = nd_in + (ov == 2 ? p2 : 0); unsigned long ebn = ov == 2 ? r_min(c2, nn - p2) : (ov == 3 || ov == 4 ? r_strlen(nd_in, nn) : nn)
+#define COMPARE_CALL()                                                                                                 \
+    int r = ov == 0 ? sv_compare_v(&h, &n) : ov == 1 ? sv_compare_pcv(&h, p1, c1, &n) : ov == 2 ? sv_compare_pcvpc(&h, p1, c1, &n, p2, c2)       \
+          : ov == 3 ? sv_compare_s(&h, cs) : ov == 4 ? sv_compare_pcs(&h, p1, c1, cs) : sv_compare_pcsc(&h, p1, c1, nd, nn);                     \
+    VF_ASSERT(SGN(r) == r_cmp(ea, ean, eb, ebn), "compare: sign of traits::compare over min(len) characters, then of the length difference, on substr(pos1,count1) / v.substr(pos2,count2)"); \
+    VF_ASSERT(h._begin == hay && h._size == hn, "the view itself is unchanged by compare"); VF_REACH()
 
-/*@GROUP name=first_not_of props=C08,C02,C05 kind=B solver=kissat unwind=8 bound=haystack<=5(quick)/6(thorough),set<=3 cost=2@*/
-void h_first_not_of(void) { HAYSTACK(HMAX, 0UL); NEEDLE_V(NMAX); unsigned long r = CALL_V(find_first_not_of); SEARCH_CHECK(r, r_ffno, T_FFNO); }
+/*@GROUP name=compare props=C08,C02,C05 kind=B unwind=7 unwindset=r_find.0:8,r_rfind.0:8,r_ffo.0:8,r_ffno.0:8,r_flo.0:8,r_flno.0:8,r_cmp.0:8,r_mismatch.0:8,w_find_tail.0:8,r_match.0:5,r_in.0:5,r_strlen.0:5 bound=haystack<=5,other<=3 cost=3@*/
+void h_compare(void) { COMPARE_BODY(5, 3);
+  VF_KNOWN(C08_compare_char_signed, w_cmp_signed(ea, ean, eb, ebn));
+  COMPARE_CALL(); }
 
-/*@GROUP name=first_not_of_ptr props=C08,C02,C05 kind=B solver=kissat unwind=8 bound=haystack<=5(quick)/6(thorough),set<=3 cost=2@*/
-void h_first_not_of_ptr(void) { HAYSTACK(HMAX, 0UL); NEEDLE_P(NMAX); unsigned long r = CALL_P(find_first_not_of); SEARCH_CHECK(r, r_ffno, T_FFNO); }
+/*@GROUP name=compare_full props=C08,C02,C05 kind=B unwind=8 unwindset=r_find.0:8,r_rfind.0:8,r_ffo.0:8,r_ffno.0:8,r_flo.0:8,r_flno.0:8,r_cmp.0:8,r_mismatch.0:8,w_find_tail.0:8,r_match.0:5,r_in.0:5,r_strlen.0:5 bound=haystack<=6,other<=3 cost=3 tier=thorough timeout=1500 when=VF_CT==0@*/
+void h_compare_full(void) { COMPARE_BODY(6, 3);
+  VF_KNOWN(C08_compare_char_signed, w_cmp_signed(ea, ean, eb, ebn));
+  COMPARE_CALL(); }
 
-/*@GROUP name=first_not_of_ch props=C08,C02,C05 kind=B solver=kissat unwind=8 bound=haystack<=5(quick)/6(thorough)@*/
-void h_first_not_of_ch(void) { HAYSTACK(HMAX, 0UL); NEEDLE_C(); unsigned long r = CALL_C(find_first_not_of); SEARCH_CHECK(r, r_ffno, T_FFNO); }
+/*@COMMON@*/
+/* relational operators on two views (operands in both orders): all six are the sign of compare() */
+#define REL_BODY(HM, NM)                                                                                               \
+    SV_BUF(hay, hn, HM); SV_VIEW(h, hay, hn); SV_BUF(nd, nn, NM); SV_VIEW(n, nd, nn); VF_INPUT_BOOL(flip);             \
+    const CH *ea = flip ? nd_in : hay_in, *eb = flip ? hay_in : nd_in; unsigned long ean = flip ? nn : hn, ebn = flip ? hn : nn; SV *x = flip ? &n : &h, *y = flip ? &h : &n
+#define REL_CALL()                                                                                                     \
+    int c = r_cmp(ea, ean, eb, ebn); _Bool same = ean == ebn && r_mismatch(ea, ean, eb, ebn) == ean;                   \
+    VF_ASSERT(sv_eq(x, y) == same && sv_ne(x, y) == !same, "== and != : same length and same characters");             \
+    VF_ASSERT((c == 0) == same, "reference: compare() == 0 iff equal");                                                \
+    VF_ASSERT(sv_lt(x, y) == (c < 0) && sv_le(x, y) == (c <= 0) && sv_gt(x, y) == (c > 0) && sv_ge(x, y) == (c >= 0), "<, <=, >, >= are lhs.compare(rhs) <, <=, >, >= 0"); VF_REACH()
 
-/*@GROUP name=last_not_of props=C08,C02,C05 kind=B solver=kissat unwind=8 bound=haystack<=5(quick)/6(thorough),set<=3 cost=2@*/
-void h_last_not_of(void) { HAYSTACK(HMAX, NPOS); NEEDLE_V(NMAX);
-  VF_KNOWN(C08_find_last_empty_view, hn == 0);
-  unsigned long r = CALL_V(find_last_not_of); SEARCH_CHECK(r, r_flno, T_FLNO); }
+/*@GROUP name=relational props=C08,C02 kind=B unwind=7 unwindset=r_find.0:8,r_rfind.0:8,r_ffo.0:8,r_ffno.0:8,r_flo.0:8,r_flno.0:8,r_cmp.0:8,r_mismatch.0:8,w_find_tail.0:8,r_match.0:5,r_in.0:5,r_strlen.0:5 bound=lhs<=5,rhs<=3 cost=2 when=VF_CT==0@*/
+void h_relational(void) { REL_BODY(5, 3);
+  VF_KNOWN(C08_compare_char_signed, w_cmp_signed(ea, ean, eb, ebn));
+  REL_CALL(); }
 
-/*@GROUP name=last_not_of_ptr props=C08,C02,C05 kind=B solver=kissat unwind=8 bound=haystack<=5(quick)/6(thorough),set<=3 cost=2@*/
-void h_last_not_of_ptr(void) { HAYSTACK(HMAX, NPOS); NEEDLE_P(NMAX);
-  VF_KNOWN(C08_find_last_empty_view, hn == 0);
-  unsigned long r = CALL_P(find_last_not_of); SEARCH_CHECK(r, r_flno, T_FLNO); }
+/*@GROUP name=relational_full props=C08,C02 kind=B unwind=8 unwindset=r_find.0:8,r_rfind.0:8,r_ffo.0:8,r_ffno.0:8,r_flo.0:8,r_flno.0:8,r_cmp.0:8,r_mismatch.0:8,w_find_tail.0:8,r_match.0:5,r_in.0:5,r_strlen.0:5 bound=lhs<=6,rhs<=6 cost=2 tier=thorough timeout=1500 when=VF_CT==0@*/
+void h_relational_full(void) { REL_BODY(6, 6);
+  VF_KNOWN(C08_compare_char_signed, w_cmp_signed(ea, ean, eb, ebn));
+  REL_CALL(); }
 
-/*@GROUP name=last_not_of_ch props=C08,C02,C05 kind=B solver=kissat unwind=8 bound=haystack<=5(quick)/6(thorough)@*/
-void h_last_not_of_ch(void) { HAYSTACK(HMAX, NPOS); NEEDLE_C();
-  VF_KNOWN(C08_find_last_empty_view, hn == 0);
-  unsigned long r = CALL_C(find_last_not_of); SEARCH_CHECK(r, r_flno, T_FLNO); }
+/*@COMMON@*/
+/* starts_with / ends_with / contains: 0-2 starts_with (view, char, C string), 3-5 ends_with, 6-8 contains */
+#define AFFIX_BODY(HM, NM)                                                                                             \
+    SV_BUF(hay, hn, HM); SV_VIEW(h, hay, hn); SV_BUF(nd, nn, NM); SV_VIEW(n, nd, nn); SV_CSTR(cs, nd_in, nn, NM);      \
+    VF_INPUT(unsigned char, ov); __CPROVER_assume(ov <= 8); CH c = nd_in[0]; const CH *en = nd_in;                     \
+    unsigned long enn = ov % 3 == 1 ? 1 : (ov % 3 == 2 ? r_strlen(nd_in, nn) : nn), ep = 0
+#define AFFIX_CALL()                                                                                                   \
+    _Bool r = ov == 0 ? sv_starts_with_v(&h, &n) : ov == 1 ? sv_starts_with_c(&h, c) : ov == 2 ? sv_starts_with_p(&h, cs)                        \
+            : ov == 3 ? sv_ends_with_v(&h, &n) : ov == 4 ? sv_ends_with_c(&h, c) : ov == 5 ? sv_ends_with_p(&h, cs)                              \
+            : ov == 6 ? sv_contains_v(&h, &n) : ov == 7 ? sv_contains_c(&h, c) : sv_contains_p(&h, cs);                                          \
+    _Bool e = ov <= 2 ? (enn <= hn && r_match(hay_in, 0, en, enn)) : ov <= 5 ? (enn <= hn && r_match(hay_in, hn - enn, en, enn)) : r_find(hay_in, hn, en, enn, 0) != NPOS; \
+    VF_ASSERT(r == e, "starts_with / ends_with: the view is at least as long as x and begins / ends with it; contains: find(x) != npos"); VF_REACH()
+
+/*@GROUP name=affix props=C08,C02,C05 kind=B unwind=7 unwindset=r_find.0:8,r_rfind.0:8,r_ffo.0:8,r_ffno.0:8,r_flo.0:8,r_flno.0:8,r_cmp.0:8,r_mismatch.0:8,w_find_tail.0:8,r_match.0:5,r_in.0:5,r_strlen.0:5 bound=haystack<=5,needle<=3 cost=3 when=VF_CT==0@*/
+void h_affix(void) { AFFIX_BODY(5, 3);
+  VF_KNOWN(C08_find_empty_needle, ov >= 6 && enn == 0);
+  VF_KNOWN(C08_find_tail_overread, ov >= 6 && w_find_tail(hay_in, hn, en, enn, ep));
+  AFFIX_CALL(); }
+
+/*@GROUP name=affix_full props=C08,C02,C05 kind=B unwind=8 unwindset=r_find.0:8,r_rfind.0:8,r_ffo.0:8,r_ffno.0:8,r_flo.0:8,r_flno.0:8,r_cmp.0:8,r_mismatch.0:8,w_find_tail.0:8,r_match.0:5,r_in.0:5,r_strlen.0:5 bound=haystack<=6,needle<=3 cost=3 tier=thorough timeout=1500 when=VF_CT==0@*/
+void h_affix_full(void) { AFFIX_BODY(6, 3);
+  VF_KNOWN(C08_find_empty_needle, ov >= 6 && enn == 0);
+  VF_KNOWN(C08_find_tail_overread, ov >= 6 && w_find_tail(hay_in, hn, en, enn, ep));
+  AFFIX_CALL(); }
+
+/*@COMMON@*/
+/* copy(dest,count,pos) / copy(dest,count): rcount = min(count, size()-pos) characters into an EXACT-fit destination; count is an
+ * arbitrary size_t; pos <= size() (beyond: C05 group viol_pos) */
+/*@GROUP name=copy props=C08,C02,C05 kind=B unwind=8 bound=haystack<=6 cost=1@*/
+void h_copy(void) { SV_BUF(hay, hn, HCAP); SV_VIEW(h, hay, hn); VF_INPUT(unsigned long, pos); VF_INPUT(unsigned long, cnt); VF_INPUT_BOOL(dflt);
+  unsigned long ep = dflt ? 0 : pos; __CPROVER_assume(ep <= hn); unsigned long rc = r_min(cnt, hn - ep);
+  VF_INPUT_BOOL(dst_tail); CH *dst_obj = (CH *)malloc(HCAP * sizeof(CH)); CH *dst = dst_obj + (dst_tail ? HCAP - rc : 0); /* window of exactly rc characters */
+  unsigned long r = dflt ? sv_copy_d(&h, dst, cnt) : sv_copy(&h, dst, cnt, pos);
+  VF_ASSERT(r == rc, "copy returns rcount = min(count, size() - pos)");
+  for (unsigned long i = 0; i < HCAP; ++i) if (i < rc) VF_ASSERT(dst[i] == hay_in[ep + i], "copy: dest[i] == at(pos + i) for i < rcount");
+  for (unsigned long i = 0; i < HCAP; ++i) if (i < hn) VF_ASSERT(hay[i] == hay_in[i], "copy leaves the source characters alone");
+  VF_ASSERT(h._begin == hay && h._size == hn, "the view itself is unchanged by copy"); VF_REACH(); }
+
+/* basic_string_view(char const*): length by traits::length; the C string is exact-fit (nothing behind the terminator) */
+/*@GROUP name=ctor_cstr props=C08,C02,C05 kind=B unwind=8 bound=length<=6 cost=1@*/
+void h_ctor_cstr(void) { VF_INPUT_ARR(CH, s_in, HCAP + 1); VF_INPUT(unsigned char, sn); __CPROVER_assume(sn <= HCAP);
+  CH *s_obj = (CH *)malloc((HCAP + 1) * sizeof(CH)); CH *s = s_obj + (HCAP - sn); for (unsigned long i = 0; i < HCAP; ++i) if (i < sn) s[i] = s_in[i]; s[sn] = 0;
+  unsigned long len = sn; for (unsigned long j = 0; j < HCAP; ++j) { unsigned long i = HCAP - 1 - j; if (i < sn && s_in[i] == 0) len = i; }
+  VF_INPUT(SV, v); sv_ctor_p(&v, s);
+  VF_ASSERT(v._begin == s && v._size == len, "basic_string_view(s): data() == s, size() == traits::length(s) (first terminator)"); VF_REACH(); }
+
+/* ---- loop-free members on a view of ANY length <= 65536 over an exact-size object (kind F) ------------------------------------- */
+/*@GROUP name=access props=C08,C02,C05 kind=F unwind=2@*/
+void h_access(void) { BIG_VIEW(h, p, n); VF_INPUT(unsigned long, i);
+  VF_ASSERT(sv_data(&h) == p && sv_size(&h) == n && sv_length(&h) == n && sv_empty(&h) == (n == 0), "data/size/length/empty follow (_begin,_size)");
+  VF_ASSERT(sv_max_size(&h) == NPOS && sv_npos() == NPOS, "max_size() and npos are size_type(-1)");
+  VF_ASSERT(sv_begin(&h) == p && sv_cbegin(&h) == p && sv_end(&h) == p + n && sv_cend(&h) == p + n, "begin/cbegin == data(), end/cend == data() + size()");
+  VF_ASSERT(sv_rbegin_base(&h) == p + n && sv_rend_base(&h) == p, "rbegin().base() == end(), rend().base() == begin()");
+  if (n > 0) { VF_ASSERT(sv_front(&h) == p && sv_back(&h) == p + (n - 1), "front/back address the first/last character"); }
+  if (i < n) { VF_ASSERT(sv_index(&h, i) == p + i, "operator[](i) addresses character i for every i < size()"); }
+  VF_ASSERT(h._begin == p && h._size == n, "observers do not change the view"); VF_REACH(); }
+
+/*@GROUP name=substr props=C08,C02,C05 kind=F unwind=2@*/
+void h_substr(void) { BIG_VIEW(h, p, n); VF_INPUT(unsigned long, pos); VF_INPUT(unsigned long, cnt); VF_INPUT(unsigned char, ov); VF_INPUT(SV, out);
+  __CPROVER_assume(ov <= 2); unsigned long ep = ov == 2 ? 0 : pos, ec = ov == 0 ? cnt : NPOS; __CPROVER_assume(ep <= n); /* pos > size(): C05 group viol_pos */
+  if (ov == 0) sv_substr(&out, &h, pos, cnt); else if (ov == 1) sv_substr_p(&out, &h, pos); else sv_substr_d(&out, &h);
+  VF_ASSERT(out._begin == p + ep && out._size == r_min(ec, n - ep), "substr(pos,count): data() + pos, rcount = min(count, size() - pos), for every count incl. npos and pos == size()");
+  VF_ASSERT(h._begin == p && h._size == n, "substr does not change the view"); VF_REACH(); }
+
+/*@GROUP name=remove props=C08,C02,C05 kind=F unwind=2@*/
+void h_remove(void) { BIG_VIEW(h, p, n); BIG_VIEW(g, q, m); VF_INPUT(unsigned long, k); VF_INPUT(unsigned char, op); __CPROVER_assume(op <= 2 && k <= n); /* k > size(): C05 group viol_remove */
+  if (op == 0) { sv_remove_prefix(&h, k); VF_ASSERT(h._begin == p + k && h._size == n - k, "remove_prefix(k): data() += k, size() -= k (k == size() gives the empty view at end())"); }
+  else if (op == 1) { sv_remove_suffix(&h, k); VF_ASSERT(h._begin == p && h._size == n - k, "remove_suffix(k): data() unchanged, size() -= k"); }
+  else { sv_swap(&h, &g); VF_ASSERT(h._begin == q && h._size == m && g._begin == p && g._size == n, "swap exchanges the two views"); }
+  VF_REACH(); }
+
+/*@GROUP name=ctors props=C08,C02,C05 kind=F unwind=2@*/
+void h_ctors(void) { BIG_VIEW(h, p, n); VF_INPUT(SV, a); VF_INPUT(SV, b); VF_INPUT(SV, c); VF_INPUT(SV, d); VF_INPUT(SV, e); VF_INPUT(unsigned long, k); __CPROVER_assume(k <= n);
+  sv_default(&a); VF_ASSERT(a._begin == 0 && a._size == 0, "basic_string_view(): data() == nullptr, size() == 0");
+  VF_ASSERT(sv_empty(&a) && sv_begin(&a) == 0, "the default view is empty"); /* end() = nullptr + 0 is fine in C++ ([expr.add]/4.1) but not in the C the checker sees: not called here */
+  sv_ctor_pn(&b, p + k, n - k); VF_ASSERT(b._begin == p + k && b._size == n - k, "basic_string_view(s, count): data() == s, size() == count");
+  sv_ctor_range(&c, p + k, p + n); VF_ASSERT(c._begin == p + k && c._size == n - k, "basic_string_view(first, last): data() == first, size() == last - first");
+  sv_copy_ctor(&d, &h); VF_ASSERT(d._begin == p && d._size == n, "copy construction: same data() and size()");
+  sv_assign(&e, &b); VF_ASSERT(e._begin == p + k && e._size == n - k && b._begin == p + k && b._size == n - k, "assignment: same data() and size(), source unchanged");
+  VF_REACH(); }
+
+/* ---- C05: violated preconditions reach the handler with the view untouched (any length <= 65536, any violating argument) ------- */
+/*@GROUP name=viol_access props=C05,C02 kind=F unwind=2@*/
+void h_viol_access(void) { BIG_VIEW(h, p, n); VF_INPUT(unsigned long, i); VF_INPUT(unsigned char, op); __CPROVER_assume(op <= 2); EXPECT_VIOLATION(h);
+  if (op == 0) { __CPROVER_assume(i >= n); sv_index(&h, i); }          /* size(), size()+1, ..., npos */
+  else if (op == 1) { __CPROVER_assume(n == 0); sv_front(&h); }
+  else { __CPROVER_assume(n == 0); sv_back(&h); }
+  VF_NORETURN_EXPECTED(); }
+
+/*@GROUP name=viol_remove props=C05,C02 kind=F unwind=2@*/
+void h_viol_remove(void) { BIG_VIEW(h, p, n); VF_INPUT(unsigned long, k); VF_INPUT_BOOL(suffix); __CPROVER_assume(k > n); EXPECT_VIOLATION(h);
+  if (suffix) sv_remove_suffix(&h, k); else sv_remove_prefix(&h, k);
+  VF_NORETURN_EXPECTED(); }
+
+/*@GROUP name=viol_pos props=C05,C02 kind=F unwind=2@*/
+void h_viol_pos(void) { BIG_VIEW(h, p, n); BIG_VIEW(g, q, m); VF_INPUT(unsigned long, pos); VF_INPUT(unsigned long, cnt); VF_INPUT(unsigned long, p2); VF_INPUT(unsigned long, c2);
+  VF_INPUT(unsigned char, op); VF_INPUT(SV, out); __CPROVER_assume(op <= 7 && pos > n); CH one[1]; one[0] = 0; EXPECT_VIOLATION(h);
+  if (op == 0) sv_substr(&out, &h, pos, cnt);
+  else if (op == 1) sv_substr_p(&out, &h, pos);
+  else if (op == 2) sv_copy(&h, one, cnt, pos);
+  else if (op == 3) sv_compare_pcv(&h, pos, cnt, &g);
+  else if (op == 4) sv_compare_pcvpc(&h, pos, cnt, &g, p2, c2);
+  else if (op == 5) sv_compare_pcs(&h, pos, cnt, one);
+  else if (op == 6) sv_compare_pcsc(&h, pos, cnt, q, m);
+  else { __CPROVER_assume(p2 > m); vf_snap = g; vf_snap_of = &g; sv_compare_pcvpc(&h, 0, cnt, &g, p2, c2); } /* pos2 > v.size() */
+  VF_NORETURN_EXPECTED(); }
+
+/* ---- contract mode (kind U): haystack of ANY length <= 65536, loop contracts with the ghost index vf_k (contracts.spec) ------------ */
+/*@GROUP name=u_first_not_of_ch props=C08,C02 kind=U mode=contract enforce=sv_ffno_c_real loops=1 standin=first_not_of_ch when=VF_CT==0@*/
+void h_u_first_not_of_ch(void) { SV *th; char c; unsigned long pos; vf_k = nondet_ulong(); sv_ffno_c_real(th, c, pos); VF_REACH(); }
+
+/*@GROUP name=u_rfind_ch props=C08,C02 kind=U mode=contract enforce=sv_rfind_c_real loops=1 standin=rfind_ch when=VF_CT==0@*/
+void h_u_rfind_ch(void) { SV *th; char c; unsigned long pos; vf_k = nondet_ulong(); sv_rfind_c_real(th, c, pos); VF_REACH(); }
+
+/*@GROUP name=u_find_ch props=C08,C02,C05 kind=U mode=contract enforce=sv_find_c_real loops=1 unwind=3 standin=find_ch when=VF_CT==0@*/
+void h_u_find_ch(void) { SV *th; char c; unsigned long pos; vf_k = nondet_ulong(); sv_find_c_real(th, c, pos); VF_REACH(); }
+
+/*@GROUP name=u_first_of_ch props=C08,C02 kind=U mode=contract enforce=sv_ffo_c_real loops=1 unwind=3 standin=first_of_ch when=VF_CT==0@*/
+void h_u_first_of_ch(void) { SV *th; char c; unsigned long pos; vf_k = nondet_ulong(); sv_ffo_c_real(th, c, pos); VF_REACH(); }
+
+/* find_first_of(view,pos) with a set of <= 3 characters and an unbounded haystack (contract sv_ffo_v_real, nested loop contracts) did not
+ * close: minisat 1500 s / kissat out of memory. Its loop contracts are what u_first_of_ch is proved with; the view form stays bounded (first_of). */
+
+/*@GROUP name=u_first_not_of props=C08,C02 kind=U solver=kissat timeout=600 mode=contract enforce=sv_ffno_v_real loops=1 unwind=5 standin=first_not_of when=VF_CT==0@*/
+void h_u_first_not_of(void) { SV *th; SV v; unsigned long pos; vf_k = nondet_ulong(); sv_ffno_v_real(th, v, pos); VF_REACH(); }
+
+
+
+
